@@ -453,6 +453,8 @@ class Interp:
                     self.pm.mutating(base, st, "del-column")
                     base.dropped.add(key)
                     base.cols.pop(key, None)
+                elif isinstance(base, dict) and self.run.loop_depth == 0 and self._hashable(key) in base:
+                    del base[self._hashable(key)]          # del d[k] of a known entry, outside symbolic loops
 
     def st_If(self, st):
         c = self.truth(self.eval(st.test))
